@@ -171,6 +171,8 @@ def run(ctx):
         "traces_validated_against_impl": steps - len(mism),
     }
     del cov["obligations"], cov["discharged"]
+    from harness import steps as _steps, gen as _gen
+    cov["step_certificates"] = _steps.coverage("C14", ctx["tier"], [s for _, s in _gen.graph_inputs("quick", ctx["seed"])])
     return {"level": LEVEL, "coverage": cov, "violations": violations, "broken": broken,
             "assumptions": ["the hand-written model Scfg/Model/Edit.lean corresponds to the code as far as the random histories exercise it",
                             "exporter faithful"]}
